@@ -56,7 +56,7 @@ def obligations(tier, ctx):
         for be in ("P", "F"):
             if tier == "quick" and be == "F" and which not in (0, 1):
                 continue
-            for pat in ((5,) if tier == "quick" else (0, 4, 5)):
+            for pat in ((7,) if tier == "quick" else (0, 4, 6, 7, 8)):
                 obs.append(Ob(name=f"ser_long_{which}_{be}_p{pat}", params=[("k", "int")], pre=[f"0 <= k < {nsz}"], call=f"H.ser_long({which}, k, {pat})", backend=be, timeout=900,
                               family="size: library-side serialisers with strings of c-1, c, c+1 characters (c: integer constants of the source and environment sizes), both backends"))
     return obs
